@@ -39,10 +39,13 @@ static void run_history(const std::string& line, bool verbose, FILE* out) {
         else if (k == 'a') obj[n]->assign(*obj[m]);
         else if (k == 's') { if (!mutate(cls, obj[n], m)) { fprintf(out, " | X no-mutator\n"); return; } }
         else if (k == 'u') { }          // one more round of probes (below): matters for caches / statics
-        else if (k == 'd') { delete obj[n]; obj[n] = 0; }
+        else if (k == 'd') { g_args_note.erase(obj[n]); delete obj[n]; obj[n] = 0; }
         fprintf(out, " | %s", ev.c_str());
         for (int i = 0; i < 8; ++i) if (obj[i]) {
-            fprintf(out, " %d=", i); Sink sk(out, verbose); obj[i]->probe(sk); sk.close();
+            fprintf(out, " %d=", i); Sink sk(out, verbose); obj[i]->probe(sk);
+            std::map<const Any*, std::string>::const_iterator nt = g_args_note.find(obj[i]);
+            if (nt != g_args_note.end()) { sk.text("args"); sk.o << nt->second; }          // built from caller-owned arguments that were recycled afterwards
+            sk.close();
         }
         fflush(out);
     }
